@@ -7,7 +7,7 @@
    reparse = Element.from_tag(table.serialize()) / Document.save + reload: maps recomputed, caches empty. *)
 From Coq Require Import List ZArith Lia Bool Arith.
 Import ListNotations.
-Require Import Vault Row Table Grid Tableabs TableB TableBabs TableBproof TableBproof2 TableBproof3 TableBproof4 TableBproof5 TableBproof6.
+Require Import Vault Row Table Grid Tableabs Transform TableB TableBabs TableBproof TableBproof2 TableBproof3 TableBproof4 TableBproof5 TableBproof6 TableBx.
 Open Scope Z_scope.
 
 (* ---- the full statement: along EVERY history of mutators, cache-filling reads and `repeated` setters on live handles,
@@ -67,11 +67,23 @@ Theorem C02_grid_after_history : forall (os : list bop) (b : bstate), Coh b -> F
 Proof. exact grid_after_history. Qed.
 Print Assumptions C02_grid_after_history.
 
-(* the repaired `repeated` setters of live rows / cells: same XML as on a fresh parse, coherence kept *)
-Theorem C02_live_setters : forall (b : bstate) (l : lop), Coh b ->
+(* the repaired `repeated` setters of live rows / cells and the Row API (set / insert / delete / append cell) through a live row
+   handle: same XML as on a fresh parse, coherence kept *)
+Theorem C02_live_setters : forall (b : bstate) (l : lop), Coh b -> lop_ok l ->
   exists b', b_live true b l = Some b' /\ a_live (ax b) l = Some (ax b') /\ Coh b'.
 Proof. exact b_live_spec. Qed.
 Print Assumptions C02_live_setters.
+
+(* rstrip / optimize_width / transpose (layer-A models: Transform.v of C17): whatever the caches held, the state afterwards is
+   the state of a fresh parse of the new XML — coherent, caches empty — and every read answers accordingly *)
+Theorem C02_transformations_end_fresh : forall (a : calg) (b : bstate) (x : xop) (b' : bstate), Coh b -> b_xform a b x = Some b' ->
+  Coh b' /\ t_xform a (ax b) x = Some (ax b') /\ tcache b' = [] /\ ccache b' = [] /\ b' = reparse b'.
+Proof. exact xform_coh. Qed.
+Print Assumptions C02_transformations_end_fresh.
+Theorem C02_reads_after_a_transformation : forall (a : calg) (b : bstate) (x : xop) (b' : bstate) (q : bread), Coh b -> b_xform a b x = Some b' ->
+  snd (b_read b' q) = snd (b_read (reparse b') q) /\ proj (snd (b_read b' q)) = gb_read (abs_t (ax b')) q.
+Proof. exact xform_reads. Qed.
+Print Assumptions C02_reads_after_a_transformation.
 
 (* the boolean that the correspondence evaluates on the dumped implementation state IS the invariant *)
 Theorem C02_cohb_is_Coh : forall b : bstate, cohb b = true <-> CohM b.
